@@ -1,8 +1,9 @@
 """Proving the simulator before believing it.
 
 selftest-determinism: for every check, N run indices are executed (a) in one batch on 16 workers, (b) in one batch in a single
-  worker (state carried from run to run), (c) each ALONE in a worker process that is recycled after every run, and (d) in a fresh
-  interpreter under another PYTHONHASHSEED; the per-run event-log digests of all four must be identical.
+  worker (state carried from run to run), (c) each ALONE in a worker process that is recycled after every run, (d) in a fresh
+  interpreter under another PYTHONHASHSEED, and (e) on four spawned worker pools under four different PYTHONHASHSEEDs (the
+  configuration every check run uses); the per-run event-log digests of all five must be identical.
 selftest-mutants: small source mutations of lark (each in a scratch copy of the lark package outside /repo and /verif, removed
   right after) that break one property; the property's check, pointed at the copy through LARK_REPO, must report a VIOLATION
   within a short budget.  Evidence and replay files of these runs go to a temporary directory, never to /verif.
@@ -11,6 +12,8 @@ import importlib, json, os, random, shutil, subprocess, sys, tempfile, time
 import multiprocessing as mp
 from concurrent.futures import ProcessPoolExecutor
 
+from sim import sched as _S
+_S.install_lock_interception()          # before any check (and so lark) is imported in this process
 from sim import core
 
 N_DET = {'C13': 300, 'C10': 160, 'C12': 120, 'C18': 300, 'C05': 30, 'C11': 4}
@@ -32,8 +35,9 @@ def digests(cid, seed, n, mode):
     """mode: 'batch16' | 'batch1' | 'alone'"""
     chk = _load(cid)
     chk.setup('quick')
-    if mode in ('batch16', 'batch1'):
-        agg = core.search(chk, 'quick', seed, 10 ** 6, 16 if mode == 'batch16' else 1, keep_digest=True, max_runs=n, stop_on_violation=False)
+    if mode in ('batch16', 'batch1', 'pools4'):
+        hs = core.pool_hashseeds(seed, 4) if mode == 'pools4' else None
+        agg = core.search(chk, 'quick', seed, 10 ** 6, 1 if mode == 'batch1' else 16, keep_digest=True, max_runs=n, stop_on_violation=False, hashseeds=hs)
         return {str(k): v for k, v in agg.digests.items() if k >= 0}
     core._CHECK, core._TIER, core._SEED = chk, 'quick', seed
     out = {}
@@ -64,12 +68,14 @@ def determinism(ids, seed):
             print('HARNESS-ERROR %s: fresh-interpreter digest run failed: %s' % (cid, (r.stdout + r.stderr)[-800:]))
             rc = 2
             continue
+        e = digests(cid, seed, n, 'pools4')
         bad = []
-        for name, other in (('single worker batch', b), ('each run alone in a fresh process', c), ('fresh interpreter, PYTHONHASHSEED=12345', d)):
+        for name, other in (('single worker batch', b), ('each run alone in a fresh process', c), ('fresh interpreter, PYTHONHASHSEED=12345', d),
+                            ('4 spawned worker pools under 4 different PYTHONHASHSEEDs', e)):
             diff = sorted(k for k in a if other.get(k) != a[k])
             if diff or len(other) != len(a):
                 bad.append((name, diff[:8], len(other)))
-        print('%s: %d runs x 4 configurations in %.0fs -> %s' % (cid, n, time.time() - t0, 'identical digests' if not bad else 'DIVERGENCE %r' % (bad,)))
+        print('%s: %d runs x 5 configurations in %.0fs -> %s' % (cid, n, time.time() - t0, 'identical digests' if not bad else 'DIVERGENCE %r' % (bad,)))
         if bad:
             rc = 2
     print('selftest-determinism: %s' % ('pass' if rc == 0 else 'FAIL'))
